@@ -153,6 +153,12 @@ func c14(p *Prog, r *Report) {
 				continue
 			}
 			ok, diff := funcsAgree(fork.funcs[n], rf)
+			if !ok {
+				// a lazily built table respelled with sync.OnceValue
+				if applies, ok2, d2 := onceTableAgree(fork, n, rf); applies {
+					ok, diff = ok2, d2
+				}
+			}
 			pos := pr.fork + "/" + fork.fileOf[n]
 			if reason, div := c14Divergent[key]; div {
 				if ok {
@@ -162,6 +168,15 @@ func c14(p *Prog, r *Report) {
 				continue
 			}
 			r.Check(ok, R1, key+" == GOROOT "+refDir+"."+n, pos, "identical modulo renaming/comments", "no longer the standard library's "+n+": "+diff)
+		}
+		// a reference function that the fork spells as `var F = sync.OnceValue(...)`
+		for n, rf := range ref.funcs {
+			if fork.funcs[n] != nil || fork.decls[n] == nil {
+				continue
+			}
+			if applies, ok2, d2 := onceTableAgree(fork, n, rf); applies {
+				r.Check(ok2, R1, short[pr.fork]+":"+n+" == GOROOT "+refDir+"."+n, pr.fork, "the reference's table, built once through sync.OnceValue", "no longer the standard library's "+n+": "+d2)
+			}
 		}
 		// functions the reference has and that were matched when confirmed must still exist
 		for n := range ref.funcs {
